@@ -3,6 +3,35 @@
 import json, glob, os, re
 HERE = os.path.dirname(os.path.dirname(os.path.abspath(__file__)))
 STRENGTHENED = {
+ "C01-w11m1": "reported by C08 as built (a quote at the edge of a quoted value, dialect supplied)",
+ "C01-w11m2": "reported by C08 as built (a fully quoted value under an unquoted dialect)",
+ "C02-w11m1": "reported by C10 as built (update with 'replace' moving a grandchild to another gene)",
+ "C02-w11m2": "reported by C10 as built (delete, then update bringing the id back under another parent)",
+ "C02-w11m3": "reported by C10 as built ('warning' strategy with a repeated id naming another parent)",
+ "C03-w11m1": "reported by C05 and C10 as built (GTF importer, 'replace' of a sub-feature keyed by exon_id)",
+ "C03-w11m2": "reported by C05 as built (GTF importer, 'merge' into an '<id>_1' entry)",
+ "C04-w11m1": "reported by C05 as built ('create_unique' when '<id>_1' and '<id>_2' are taken by earlier features)",
+ "C04-w11m2": "reported by C13 as built (one-shot generator longer than the peek window)",
+ "C04-w11m3": "reported by C07, C08 and C01 as built ('=' inside a GFF3 value, dialect supplied)",
+ "C05-w11m2": "NOT reported: see section 11b (a forced-merge column in which one arrival carries '.')",
+ "C07-w11m2": "NOT reported: see section 11b (a literal comma in a later key's value after repeated keys were seen)",
+ "C08-w11m1": "reported by C17 as built (printing with always_return_list switched off)",
+ "C09-w11m1": "NOT reported: see section 11b (a ready-made DataIterator handed to create_db next to an explicit dialect of the other format)",
+ "C10-w11m2": "reported by C13 as built (one-shot iterators that are not generators)",
+ "C10-w11m3": "reported by C05 as built (forced-merge column merged three times)",
+ "C11-w11m1": "C11's featuretype arguments gained collections naming a type twice",
+ "C11-w11m3": "C11's database gained a feature whose type is the placeholder '.'",
+ "C13-w11m1": "C13's FeatureDB form now takes its features from a database keyed by an id_spec of its own",
+ "C13-w11m2": "reported by C12 as built (bin of a feature moved after construction)",
+ "C13-w11m3": "NOT reported: see section 11b (bytes that are not UTF-8 in a gzip file)",
+ "C15-w11m1": "C15 'unstranded' gained a stranded transcript listed before the unstranded one (labels are per transcript)",
+ "C15-w11m2": "C15 'unstranded' gained an ncRNA with exons: a transcript for the gene selection, none for parent_featuretype='mRNA'",
+ "C15-w11m3": "C15 'unstranded' gained CDS children and asks introns / splice sites with exon_featuretype='CDS'",
+ "C16-w11m1": "C16's criteria gained overlap_start_threshold(3), a threshold longer than the short features",
+ "C18-w11m2": "C18's FASTA is now soft-masked in the middle (case is content)",
+ "C19-w11m1": "C19's updated old database now holds 13 features - more than an importer inspects before it starts writing - so the 'selfdb' input still has a read open when the file is replaced",
+ "C20-w11m1": "C20's single-gene GTF now has a blank in its gene_id",
+ "C20-w11m2": "C20 gained the job 'transcript inference off only' over the single-transcript GTF (exactly one feature left to infer)",
  "C01-w9m2": "reported by C05 as strengthened for C10-w8m1 (X_1 and X_2 both taken)",
  "C02-w9m2": "C02's multi-parent lines gained the style 'first parent named a second time'",
  "C02-w9m3": "C02's order_by options gained a list holding 'length'",
@@ -264,8 +293,12 @@ to make three one-token / one-line changes at sites nobody had touched. A ninth 
 changes were tried, and the checks were extended first where a report named something no check asked (so 'caught as built' is not
 claimed for that wave: the last column says what was added). A tenth wave (`*-w10m*`) repeated the very first, naive prompt once more on the final
 checks, as a closing measurement: all 40 of its changes were reported as built, every one by its own property's quick check on the first
-run (no check was touched for it). %d of the %d changes were not reported by their own property's check as it stood when they
-were first tried (%d of those were reported by another property's check straight away); all are now. Four
+run (no check was touched for it). An eleventh wave (`*-w11m*`), started in the last two hours, repeated the eighth's instructions (every earlier
+proposal listed, one-token or one-line changes at code sites nobody had touched): 52 proposals, 4 dropped as outside the statements (a region or
+limit starting at 0, twice; lone surrogates; a feature type that is the empty string, which the unchanged listing calls read as 'no filter'), 48 kept.
+Of the 48, 33 were reported as built (18 by the property's own check, 15 by another property's check), 11 after the named check was extended
+(last column), and 4 are NOT reported at the end: they are marked **none** below and described in section 11b. %d of the %d changes were not reported by their own property's check as it stood when they
+were first tried (%d of those were reported by another property's check straight away); all but the four of the eleventh wave just mentioned are now. Four
 proposals were dropped, not kept as seeded changes: four (C02, C04, C10 in the fifth wave, C10 in the sixth)
 only alter what a FAILED update leaves in the main database file, which the statements leave open (C10 only
 demands the backup file; the checks deliberately do not judge the main file there), so reporting them would
